@@ -145,6 +145,114 @@ fn run(line: &str) -> String {
         }
         return format!("{{\"violated\":{},\"detail\":\"{}\",\"trace\":\"{}\"}}", !problems.is_empty(), problems.join("; ").replace('"', "'"), key_trace.join(" "));
     }
+
+    if kind == "bevy_step" {
+        // One frame of the real `animate` system from the pre-state of a solver counterexample, constructed through the public API:
+        // the private state is reached with helper timelines (set_timeline does not reset the state), then the real timeline, the
+        // public timeline_position / enabled fields and the component are set; every clause of C18 is then judged on that frame
+        // with the quantities the real code reports (timeline.delay(), duration(), as_secs_f32 of the position).
+        let pre_state: u32 = field(line, "pre_state").parse().unwrap_or(0);
+        let enabled = field(line, "enabled") != "false";
+        let has_tl = field(line, "has_tl") != "false";
+        let has_tgt = field(line, "has_tgt") != "false";
+        let pf = |k: &str, d: f32| -> f32 { let v = field(line, k); if v == "inf" { f32::INFINITY } else { v.parse().unwrap_or(d) } };
+        let (pos, delta, delay, dur, x0) = (pf("pos", 0.0), pf("delta", 0.1), pf("delay", 0.0), pf("dur", 1.0), pf("x0", 3.0));
+        let mut app = App::new();
+        app.add_plugins(AnimationPlugin::<V>::new()).init_resource::<Time>().init_resource::<Seen>().add_systems(Last, collect);
+        let real_tl = || -> VTimeline {
+            if dur.is_infinite() { tl_v(delay, 1.0, Repeat::Infinite) } else { tl_v(delay, (dur - delay).max(1e-3), Repeat::None) }
+        };
+        let e = if has_tgt { app.world.spawn((V { x: 3.0 }, Animator::<V>::new())).id() } else { app.world.spawn(Animator::<V>::new()).id() };
+        let mut now = Instant::now();
+        app.world.resource_mut::<Time>().update_with_instant(now);
+        let mut frame = |app: &mut App, d: f32| { now += Duration::from_secs_f32(d); app.world.resource_mut::<Time>().update_with_instant(now); app.update(); };
+        // reach the private state
+        match pre_state {
+            1 => { app.world.get_mut::<Animator<V>>(e).unwrap().set_timeline(tl_v(1000.0, 1.0, Repeat::None)); frame(&mut app, 0.0); }
+            2 => { app.world.get_mut::<Animator<V>>(e).unwrap().set_timeline(tl_v(0.0, 1000.0, Repeat::None)); frame(&mut app, 0.0); }
+            3 => { app.world.get_mut::<Animator<V>>(e).unwrap().set_timeline(tl_v(0.0, 0.5, Repeat::None)); frame(&mut app, 1.0); frame(&mut app, 1.0); frame(&mut app, 0.0); }
+            _ => {}
+        }
+        let rank = |s: AnimationState| match s { AnimationState::None => 0u32, AnimationState::Waiting => 1, AnimationState::Playing => 2, AnimationState::Ended => 3 };
+        if pre_state != 0 && !has_tl { return "{\"violated\":false,\"skipped\":\"state without a timeline is only reachable as None\",\"claims\":\"\"}".to_string(); }
+        {
+            let mut a = app.world.get_mut::<Animator<V>>(e).unwrap();
+            if has_tl { a.set_timeline(real_tl()); }
+            a.timeline_position = Duration::from_secs_f32(pos);
+            a.enabled = enabled;
+        }
+        let st0 = app.world.get::<Animator<V>>(e).unwrap().state();
+        if rank(st0) != pre_state { return format!("{{\"violated\":false,\"skipped\":\"pre-state {:?} not reached ({:?})\",\"claims\":\"\"}}", pre_state, st0); }
+        let tl = real_tl();
+        let (rdur, rdly) = (tl.duration(), tl.delay());
+        let mut scratch = V { x: 0.0 }; tl.update(&mut scratch, if rdur.is_finite() { rdur + 1.0 } else { 0.0 }); let terminal = scratch.x;
+        let t_old = app.world.get::<Animator<V>>(e).unwrap().timeline_position.as_secs_f32();
+        let pos0 = app.world.get::<Animator<V>>(e).unwrap().timeline_position;
+        // inductive hypothesis of the model on Ended pre-states: the position reached the duration and the target rests
+        let x_start = if pre_state == 3 { terminal } else { x0 };
+        if pre_state == 3 && !(t_old >= rdur) { return "{\"violated\":false,\"skipped\":\"Ended pre-state outside the inductive hypothesis\",\"claims\":\"\"}".to_string(); }
+        if has_tgt { app.world.get_mut::<V>(e).unwrap().x = x_start; }
+        app.world.resource_mut::<Seen>().0.clear();
+        app.world.resource_mut::<Events<AnimationStateChanged>>().clear();
+        frame(&mut app, delta);
+        let a = app.world.get::<Animator<V>>(e).unwrap();
+        let (ns, npos, nen) = (a.state(), a.timeline_position, a.enabled);
+        let nx = if has_tgt { app.world.get::<V>(e).unwrap().x } else { 0.0 };
+        let evs: Vec<AnimationState> = app.world.resource::<Seen>().0.iter().filter(|(en, _)| *en == e).map(|(_, s)| *s).collect();
+        let dd = Duration::from_secs_f32(delta);
+        let mut bad: Vec<String> = vec![];
+        let same_all = ns == st0 && npos == pos0 && nen == enabled && (!has_tgt || nx == x_start);
+        if !enabled && !(same_all && evs.is_empty()) { bad.push("disabled-changes-nothing".into()); }
+        if has_tl {
+            if enabled && (rank(ns) == 1 || rank(ns) == 2) && npos != pos0 + dd { bad.push("position-grows-by-delta-while-waiting-or-playing".into()); }
+            if enabled && rank(ns) == 3 && npos != pos0 { bad.push("position-stops-once-ended".into()); }
+            if enabled && rank(ns) < rank(st0) { bad.push("state-only-moves-forward".into()); }
+            if enabled && rank(ns) == 1 && !(t_old < rdly) { bad.push("waiting-only-before-delay".into()); }
+            if enabled && rdur.is_infinite() && rank(ns) == 3 { bad.push("never-ended-when-infinite".into()); }
+            if enabled && rank(ns) == 3 && rank(st0) != 3 && !(t_old >= rdur) { bad.push("ended-not-before-duration".into()); }
+            if enabled && t_old >= rdur && rank(ns) != 3 { bad.push("ended-at-most-one-frame-late".into()); }
+            if has_tgt {
+                if enabled && rank(ns) == 3 && nx != terminal { bad.push("ended-implies-terminal-values".into()); }
+                let mut sc = V { x: x_start }; tl.update(&mut sc, t_old);
+                if enabled && rank(st0) == 2 && nx != sc.x { bad.push("playing-shows-timeline-at-frame-old-position".into()); }
+            }
+        } else if enabled && !(rank(ns) == 0 && npos == pos0 && (!has_tgt || nx == x_start)) { bad.push("no-timeline-state-none".into()); }
+        let changed = ns != st0;
+        let ev_ok = if !enabled { evs.is_empty() } else if changed { evs.len() == 1 && evs[0] == ns } else { evs.is_empty() };
+        if !ev_ok { bad.push("event-iff-state-change".into()); }
+        return format!("{{\"violated\":{},\"claims\":\"{}\",\"detail\":\"pre-state {:?} enabled={} position {:?} (delay {}, total duration {}), component x = {}, frame delta {} s -> state {:?}, position {:?}, x = {} (terminal value {}), events {:?}\"}}",
+                       !bad.is_empty(), bad.join(","), st0, enabled, pos0, rdly, rdur, x_start, delta, ns, npos, nx, terminal, evs);
+    }
+    if kind == "bevy_chain_step" {
+        // One frame of the real chain_animations system: entity 0 has selector + chain (key `cur`), entity 1 has neither; the given
+        // AnimationStateChanged events are sent through the public Events resource; the selector key is read after the frame.
+        let cur = parse_key(field(line, "cur"));
+        let mut app = App::new();
+        app.add_plugins(AnimationPlugin::<V>::new()).init_resource::<Time>();
+        app.register_animation_key::<V, Key>();
+        let go = V::timeline().duration_seconds(1000.0).keyframe(V::keyframe(1.0).x(20.0)).build();
+        let back = V::timeline().duration_seconds(1000.0).keyframe(V::keyframe(1.0).x(-5.0)).build();
+        let selector = AnimationSelectorBuilder::<Key, V>::new().add(Key::Go, go).add(Key::Back, back).initial_key(cur).build();
+        let mut cb = AnimationChainBuilder::<Key>::new();
+        for pair in field(line, "chain").split(';').filter(|x| !x.is_empty()) {
+            let mut it = pair.split('>'); let a = parse_key(it.next().unwrap()); let b = parse_key(it.next().unwrap());
+            cb = cb.add(a, b);
+        }
+        let e0 = app.world.spawn((V { x: 3.0 }, Animator::<V>::new(), selector, cb.build())).id();
+        let e1 = app.world.spawn((V { x: 4.0 }, Animator::<V>::new())).id();
+        let mut now = Instant::now();
+        app.world.resource_mut::<Time>().update_with_instant(now);
+        for _ in 0..3 { now += Duration::from_secs_f32(0.01); app.world.resource_mut::<Time>().update_with_instant(now); app.update(); }
+        let k0 = app.world.get::<AnimationSelector<Key, V>>(e0).unwrap().timeline_key;
+        for evs in field(line, "events").split(';').filter(|x| !x.is_empty()) {
+            let mut it = evs.split(':'); let who: u32 = it.next().unwrap().parse().unwrap(); let st: u32 = it.next().unwrap().parse().unwrap();
+            let st = match st { 0 => AnimationState::None, 1 => AnimationState::Waiting, 2 => AnimationState::Playing, _ => AnimationState::Ended };
+            app.world.send_event(AnimationStateChanged::new(if who == 0 { e0 } else { e1 }, st));
+        }
+        now += Duration::from_secs_f32(0.01); app.world.resource_mut::<Time>().update_with_instant(now); app.update();
+        let k1 = app.world.get::<AnimationSelector<Key, V>>(e0).unwrap().timeline_key;
+        return format!("{{\"key_before\":\"{:?}\",\"key_after\":\"{:?}\"}}", k0, k1);
+    }
     if kind == "bevy_history" {
         return run_history(field(line, "ops"), field(line, "chain"));
     }
